@@ -1810,7 +1810,7 @@ class Store:
         target = self._establish_path(path[:-1], {})
         if target.get_value() and path[-1] in target.get_value():
             # this path already exists, update it
-            self.apply_update({path[-1]: node.get_value()})
+            target.apply_update({path[-1]: node.get_value()})
         else:
             node.outer = target
             target.inner.update({path[-1]: node})
